@@ -200,9 +200,35 @@ fn model_exec(ins: &Ins, fwd: bool, stack: &mut Vec<Vec<f64>>, ops: &mut Vec<[f6
     true
 }
 
+/// What a container of the given kind reports for a tuple after storing it (the documented
+/// container semantics of src/coordinate/set.rs: missing height reads 0, missing epoch NaN,
+/// Coor32 stores f32, the (set, h, t) and (set, t) adapters report their fixed values).
+const FIXED_H: f64 = -7.5;
+const FIXED_T: f64 = 2001.25;
+const KINDS: usize = 6;
+fn kind_name(kind: u8) -> &'static str {
+    ["Vec<Coor4D>", "Vec<Coor3D>", "Vec<Coor2D>", "Vec<Coor32>", "(Vec<Coor2D>, h, t)", "(Vec<Coor3D>, t)"][kind as usize % KINDS]
+}
+fn project(kind: u8, c: [f64; 4]) -> [f64; 4] {
+    match kind as usize % KINDS {
+        0 => c,
+        1 => [c[0], c[1], c[2], f64::NAN],
+        2 => [c[0], c[1], 0.0, f64::NAN],
+        3 => [c[0] as f32 as f64, c[1] as f32 as f64, 0.0, f64::NAN],
+        4 => [c[0], c[1], FIXED_H, FIXED_T],
+        _ => [c[0], c[1], c[2], FIXED_T],
+    }
+}
+
 fn model(prog: &[Ins], fwd: bool, operands: &[[f64; 4]]) -> ModelOut {
+    model_in(prog, fwd, operands, 0)
+}
+
+/// The machine acting on an operand set held in a container of the given kind: every step
+/// reads tuples through the container and writes them back through it.
+fn model_in(prog: &[Ins], fwd: bool, operands: &[[f64; 4]], kind: u8) -> ModelOut {
     let mut out = ModelOut { count: operands.len(), ..Default::default() };
-    let mut ops: Vec<[f64; 4]> = operands.to_vec();
+    let mut ops: Vec<[f64; 4]> = operands.iter().map(|c| project(kind, *c)).collect();
     let mut stack: Vec<Vec<f64>> = vec![]; // fresh per application
     let order: Vec<&Ins> = if fwd { prog.iter().collect() } else { prog.iter().rev().collect() };
     let n = order.len();
@@ -219,6 +245,9 @@ fn model(prog: &[Ins], fwd: bool, operands: &[[f64; 4]]) -> ModelOut {
             for c in ops.iter_mut() {
                 *c = [f64::NAN; 4];
             }
+        }
+        for c in ops.iter_mut() {
+            *c = project(kind, *c);
         }
     }
     out.values = ops;
@@ -273,6 +302,25 @@ struct Case {
     fwd: bool,
     n_operands: usize,
     offset: i32,
+    /// container kind (see `project`); absent in older replay files = Vec<Coor4D>
+    #[serde(default)]
+    kind: u8,
+}
+
+/// Apply through a container of the case's kind, read the result back through get_coord
+fn apply_in(ctx: &Minimal, op: OpHandle, dir: Direction, kind: u8, ops: &[[f64; 4]]) -> Result<Result<(Vec<Coor4D>, usize), geodesy::Error>, vcore::guard::PanicInfo> {
+    fn run<S: CoordinateSet>(ctx: &Minimal, op: OpHandle, dir: Direction, mut set: S) -> Result<Result<(Vec<Coor4D>, usize), geodesy::Error>, vcore::guard::PanicInfo> {
+        let r = try_apply(ctx, op, dir, &mut set)?;
+        Ok(r.map(|count| ((0..set.len()).map(|i| set.get_coord(i)).collect(), count)))
+    }
+    match kind as usize % KINDS {
+        0 => run(ctx, op, dir, ops.iter().map(|c| Coor4D(*c)).collect::<Vec<_>>()),
+        1 => run(ctx, op, dir, ops.iter().map(|c| Coor3D([c[0], c[1], c[2]])).collect::<Vec<_>>()),
+        2 => run(ctx, op, dir, ops.iter().map(|c| Coor2D([c[0], c[1]])).collect::<Vec<_>>()),
+        3 => run(ctx, op, dir, ops.iter().map(|c| Coor32([c[0] as f32, c[1] as f32])).collect::<Vec<_>>()),
+        4 => run(ctx, op, dir, (ops.iter().map(|c| Coor2D([c[0], c[1]])).collect::<Vec<_>>(), FIXED_H, FIXED_T)),
+        _ => run(ctx, op, dir, (ops.iter().map(|c| Coor3D([c[0], c[1], c[2]])).collect::<Vec<_>>(), FIXED_T)),
+    }
 }
 
 fn operands(n: usize, offset: i32) -> Vec<[f64; 4]> {
@@ -287,7 +335,8 @@ fn operands(n: usize, offset: i32) -> Vec<[f64; 4]> {
 fn check(case: &Case, rec: &mut Rec) -> CaseResult {
     let text = program_text(&case.prog);
     let ops = operands(case.n_operands, case.offset);
-    let m = model(&case.prog, case.fwd, &ops);
+    let m = model_in(&case.prog, case.fwd, &ops, case.kind);
+    let kind = kind_name(case.kind);
     let mut ctx = Minimal::new();
     let op = match try_op(&mut ctx, &text) {
         Err(p) => vfail!(format!("panic-instantiate@{}", p.sig()), "instantiating '{text}' panics: {} at {}:{}", p.msg, p.file, p.line),
@@ -298,10 +347,9 @@ fn check(case: &Case, rec: &mut Rec) -> CaseResult {
     let mut first: Option<(Vec<Coor4D>, usize)> = None;
     // apply the same handle three times to fresh copies: the stack must not leak
     for round in 0..3 {
-        let mut data: Vec<Coor4D> = ops.iter().map(|c| Coor4D(*c)).collect();
-        let count = match try_apply(&ctx, op, if case.fwd { Fwd } else { Inv }, &mut data) {
-            Err(p) => vfail!(format!("panic-apply@{}", p.sig()), "applying '{text}' ({dir:?}) panics: {} at {}:{}", p.msg, p.file, p.line),
-            Ok(Err(e)) => vfail!("apply-error", "apply of '{text}' returned an error: {e:?}"),
+        let (data, count) = match apply_in(&ctx, op, if case.fwd { Fwd } else { Inv }, case.kind, &ops) {
+            Err(p) => vfail!(format!("panic-apply@{}", p.sig()), "applying '{text}' ({dir:?}) to a {kind} panics: {} at {}:{}", p.msg, p.file, p.line),
+            Ok(Err(e)) => vfail!("apply-error", "apply of '{text}' to a {kind} returned an error: {e:?}"),
             Ok(Ok(c)) => c,
         };
         if m.unspecified {
@@ -316,16 +364,26 @@ fn check(case: &Case, rec: &mut Rec) -> CaseResult {
         if m.underflow {
             vensure!(count == 0, "underflow-count", "'{text}' ({dir:?}) underflows the stack but reports {count} successes (expected 0)");
             if m.underflow_last {
+                // dimensions the container stores (the others read as constants, NaN for a missing epoch)
+                let stored: &[usize] = match case.kind as usize % KINDS { 0 => &[0, 1, 2, 3], 1 | 5 => &[0, 1, 2], _ => &[0, 1] };
+                let last = if case.fwd { case.prog.last() } else { case.prog.first() };
+                let legacy = matches!((last, case.fwd), (Some(Ins::LPop(_)), true) | (Some(Ins::LPush(_)), false));
                 for (i, c) in data.iter().enumerate() {
-                    vensure!((0..4).any(|k| c[k].is_nan()), "underflow-not-nan",
-                        "'{text}' ({dir:?}) underflows in its last step but tuple {i} carries no NaN: {}", fmt_c4(c));
+                    if legacy {
+                        // the legacy pop marks single elements (pinned by the repository's own test)
+                        vensure!(stored.iter().any(|k| c[*k].is_nan()), "underflow-not-nan",
+                            "'{text}' ({dir:?}) on a {kind} underflows in its last step but tuple {i} carries no NaN in any dimension the container stores: {}", fmt_c4(c));
+                    } else {
+                        vensure!(stored.iter().all(|k| c[*k].is_nan()), "underflow-not-all-nan",
+                            "'{text}' ({dir:?}) on a {kind} underflows in its last step but tuple {i} is not NaN in every dimension the container stores: {}", fmt_c4(c));
+                    }
                 }
             }
         } else {
             vensure!(count == case.n_operands, "count", "'{text}' ({dir:?}) on {} tuples reports {count} successes", case.n_operands);
             for (i, c) in data.iter().enumerate() {
                 vensure!(c4_bits_eq(c, &Coor4D(m.values[i])), "machine-mismatch",
-                    "'{text}' ({dir:?}) tuple {i}: library {} vs documented machine {:?} (input {:?})", fmt_c4(c), m.values[i], ops[i]);
+                    "'{text}' ({dir:?}) on a {kind}, tuple {i}: library {} vs documented machine {:?} (input {:?}, read through the container before and after every step)", fmt_c4(c), m.values[i], ops[i]);
             }
         }
         if first.is_none() {
@@ -333,8 +391,9 @@ fn check(case: &Case, rec: &mut Rec) -> CaseResult {
         }
     }
     rec.class(if m.underflow { "underflow" } else if case.fwd { "ok-fwd" } else { "ok-inv" });
+    rec.class(&format!("container:{kind}"));
     if case.prog.iter().any(|i| i.moves_data()) && case.n_operands > 0 {
-        rec.nontrivial(&(text, case.fwd));
+        rec.nontrivial(&(text, case.fwd, case.kind));
     }
     Ok(())
 }
@@ -497,8 +556,8 @@ fn interpret(raw: &[RawIns]) -> Vec<Ins> {
 }
 
 fn random_case(maxlen: usize) -> impl Strategy<Value = Case> {
-    (prop::collection::vec(raw_ins(), 2..=maxlen), any::<bool>(), prop_oneof![4 => 0usize..6, 1 => 6usize..120], -50i32..50).prop_map(
-        |(raw, fwd, n_operands, offset)| Case { prog: arrange(&interpret(&raw), fwd), fwd, n_operands, offset },
+    (prop::collection::vec(raw_ins(), 2..=maxlen), any::<bool>(), prop_oneof![4 => 0usize..6, 1 => 6usize..120], -50i32..50, 0u8..KINDS as u8).prop_map(
+        |(raw, fwd, n_operands, offset, kind)| Case { prog: arrange(&interpret(&raw), fwd), fwd, n_operands, offset, kind },
     )
 }
 
@@ -555,6 +614,7 @@ fn main() {
     run.assume("flip with a repeated index is read sequentially (left to right), as are push and pop");
     run.assume("after a stack underflow only the count (0) is compared unless the underflow is the last executed step, where every tuple must carry NaN");
     run.assume("swap on fewer than two stack elements is unspecified: generated, executed (must not panic), result not compared");
+    run.assume("operand sets in containers storing fewer than four dimensions: every step reads a tuple as the container reports it (height 0, epoch NaN, f32 values, adapter constants) and what it writes is kept in the stored dimensions only (documented container semantics)");
 
     let instrs = all_instructions();
     let n_ins = instrs.len();
@@ -564,17 +624,18 @@ fn main() {
         let instrs = instrs.clone();
         run.enumerate(
             "single-instruction",
-            "all 1181 instructions (push/pop/flip lists of length<=4 over 1..4, roll/unroll |n|<m<=8, swap, legacy subsets) x 4 prelude depths (0,2,4,8) x both directions x operand sets of 0/1/3 tuples; non-trivial = moves data off the stack",
-            n_ins * 4 * 2 * 3,
+            "all 1181 instructions (push/pop/flip lists of length<=4 over 1..4, roll/unroll |n|<m<=8, swap, legacy subsets) x 4 prelude depths (0,2,4,8) x both directions x operand sets of 0/1/3 tuples x 6 container kinds (Vec of Coor4D/3D/2D/32, (2D,h,t), (3D,t)); non-trivial = moves data off the stack",
+            n_ins * 4 * 2 * 3 * KINDS,
             move |i| {
                 let ins = instrs[i % n_ins].clone();
                 let r = i / n_ins;
                 let pre = r % 4;
                 let fwd = (r / 4) % 2 == 0;
-                let nops = [3usize, 1, 0][r / 8];
+                let nops = [3usize, 1, 0][(r / 8) % 3];
+                let kind = (r / 24) as u8;
                 let mut exec = prelude(pre);
                 exec.push(ins);
-                Case { prog: arrange(&exec, fwd), fwd, n_operands: nops, offset: 0 }
+                Case { prog: arrange(&exec, fwd), fwd, n_operands: nops, offset: 0, kind }
             },
             check,
         );
@@ -596,7 +657,7 @@ fn main() {
                     let mut exec = prelude(3);
                     exec.push(a);
                     exec.push(b);
-                    Case { prog: arrange(&exec, fwd), fwd, n_operands: 2, offset: 7 }
+                    Case { prog: arrange(&exec, fwd), fwd, n_operands: 2, offset: 7, kind: (i % KINDS) as u8 }
                 },
                 check,
             );
@@ -615,7 +676,7 @@ fn main() {
                     let mut exec = prelude(3);
                     exec.push(a);
                     exec.push(b);
-                    Case { prog: arrange(&exec, fwd), fwd, n_operands: 2, offset: 7 }
+                    Case { prog: arrange(&exec, fwd), fwd, n_operands: 2, offset: 7, kind: (i % KINDS) as u8 }
                 },
                 check,
             );
